@@ -10,6 +10,8 @@ CONSTANTS
   NoReinit = FALSE
   NoRekey = FALSE
   EarlyFlag = FALSE
+  StickyGuard = FALSE
+  EarlyUnreg = FALSE
   Hist = FALSE
 INVARIANT TypeOK
 INVARIANT Inv_AllDead
